@@ -56,7 +56,8 @@ def once(mi: int, cl: int, n1: int, n2: int) -> bool:
     """
     mode = MODES[pick(mi, 0, 6)]
     cl, n1, n2 = pick(cl, -1, 3), pick(n1, 0, 2), pick(n2, 0, 2)
-    if cl > n1 + n2:
+    short = cl > n1 + n2               # the application declares more than it delivers: framing is its problem (C02 assumes
+    if short and cl > n1 + n2 + 1:     # it away), but the log must still report what was really sent
         return True
     kind = CASE["kind"]
     chunks = [b"ab"[:n1], b"cd"[:n2]]
@@ -105,6 +106,8 @@ def once(mi: int, cl: int, n1: int, n2: int) -> bool:
             rs = hr.parse_stream(raw, [False])
         except hr.Bad:
             return False
+        if short:
+            return len(rs) == 1 and sent == len(rs[0]["body"]) and status.startswith(str(rs[0]["code"]))
         if len(rs) != 1 or not rs[0]["complete"]:
             return False
         # truthful: status as on the wire, bytes = body bytes actually sent
